@@ -15,7 +15,9 @@
   the body source ended regularly (otherwise the daemon aborts the connection instead of finishing
   the message).
 -/
-import Mhd.Proofs.ReplyExtra
+import Mhd.Proofs.ReplyClose
+import Mhd.Proofs.ReplyError
+import Mhd.Proofs.ReplyIov
 
 namespace Mhd.C04
 open Mhd.ReplyStr Mhd.Resp Mhd.Reply
@@ -65,7 +67,8 @@ theorem reply_wellFramed (c : Conn) (r : Resp) (st : CState) (allow : Bool) (cod
 /-- What the strict parser finds in it: the status code that was queued; exactly one body delimitation —
     none for HEAD / 1xx / 204 / 304, chunked (only possible towards an HTTP/1.1 client), Content-Length equal
     to the size of the response, or close-delimited —; the body is byte for byte what the application
-    supplied (nothing for HEAD / 1xx / 204 / 304); the trailers are the footers of the response. -/
+    supplied (nothing for HEAD / 1xx / 204 / 304); the trailers of a chunked reply are exactly the footers of the
+    response (every footer-kind entry, verbatim, once, in insertion order), and there are no trailers otherwise. -/
 theorem one_body_delimitation (c : Conn) (r : Resp) (st : CState) (allow : Bool) (code0 : Nat) (q : Queued) (src : BodySrc)
     (date : Option Bytes) (wb : Nat)
     (hinv : Inv r) (hq : queueResponse c st false false allow code0 r = some q)
@@ -79,8 +82,9 @@ theorem one_body_delimitation (c : Conn) (r : Resp) (st : CState) (allow : Bool)
                    else if r.totalSize ≠ sizeUnknown then Framing.length r.totalSize else Framing.close) ∧
       p.body = (if NoBody c q.code then [] else appBody src) ∧
       (p.framing = Framing.chunked → ver11Compat c.ver = true) ∧
-      (∀ n, p.framing = Framing.length n → p.body.length = n) := by
-  refine ⟨_, Mhd.Reply.reply_parses c r st allow code0 q src date wb hinv hq hdate hsz hsrc hwb hcomp, rfl, rfl, rfl, ?_, ?_⟩
+      (∀ n, p.framing = Framing.length n → p.body.length = n) ∧
+      p.trailers = (if p.framing = Framing.chunked then ((footerFields r.hdrs).map toHttp).map normField else []) := by
+  refine ⟨_, Mhd.Reply.reply_parses c r st allow code0 q src date wb hinv hq hdate hsz hsrc hwb hcomp, rfl, rfl, rfl, ?_, ?_, ?_⟩
   · intro hf
     simp only [expectedFraming] at hf
     split at hf
@@ -107,6 +111,12 @@ theorem one_body_delimitation (c : Conn) (r : Resp) (st : CState) (allow : Bool)
             have := hsrc.2.2.1 hkn
             simpa [appBody, sumLen] using this
         · cases hf
+  · simp only [expectedFraming]
+    by_cases hnb : NoBody c q.code
+    · simp [hnb]
+    · by_cases hch : (setupReplyProperties c r q.code).2.chunked = true
+      · simp [hnb, hch]
+      · by_cases hkn : r.totalSize ≠ sizeUnknown <;> simp [hnb, hch, hkn]
 
 /-- No body byte follows the header block of a reply to HEAD or with status 1xx / 204 / 304. -/
 theorem no_body_when_forbidden (c : Conn) (r : Resp) (st : CState) (allow : Bool) (code0 : Nat) (q : Queued) (src : BodySrc)
@@ -128,7 +138,10 @@ theorem no_body_when_forbidden (c : Conn) (r : Resp) (st : CState) (allow : Bool
   · rw [e2, hns]; rfl
 
 /-- Application header fields other than Connection, Content-Length, Transfer-Encoding and Date appear in the
-    parsed reply verbatim (the value as stored, leading whitespace aside), exactly once each, in insertion order. -/
+    parsed reply verbatim (the value as stored, leading whitespace aside), exactly once each, in insertion order:
+    the sub-list of unmanaged fields of the header block IS the list of header-kind entries with unmanaged names.
+    Footer-kind entries appear — all of them, whatever their name, same sense of verbatim / once / in order — as
+    the trailer section of a chunked reply, and nowhere when the reply is not chunked or has no body. -/
 theorem user_headers_verbatim (c : Conn) (r : Resp) (st : CState) (allow : Bool) (code0 : Nat) (q : Queued) (src : BodySrc)
     (date : Option Bytes) (wb : Nat)
     (hinv : Inv r) (hq : queueResponse c st false false allow code0 r = some q)
@@ -136,8 +149,10 @@ theorem user_headers_verbatim (c : Conn) (r : Resp) (st : CState) (allow : Bool)
     (hsrc : SrcLegal r wb src) (hwb : 128 ≤ wb)
     (hcomp : (sendReply c r q src date wb (startPosAfterQueue q r 0)).complete = true) :
     ∃ p, parseReply (reqOf c) (sendReply c r q src date wb (startPosAfterQueue q r 0)).wire = some p ∧
-      p.fields.filter (fun f => ! managedName f.name) = ((userHdrs r.hdrs).map toHttp).map normField := by
-  refine ⟨_, Mhd.Reply.reply_parses c r st allow code0 q src date wb hinv hq hdate hsz hsrc hwb hcomp, ?_⟩
+      p.fields.filter (fun f => ! managedName f.name) = ((userHdrs r.hdrs).map toHttp).map normField ∧
+      p.trailers = (if ¬ NoBody c q.code ∧ (setupReplyProperties c r q.code).2.chunked = true
+                    then ((footerFields r.hdrs).map toHttp).map normField else []) := by
+  refine ⟨_, Mhd.Reply.reply_parses c r st allow code0 q src date wb hinv hq hdate hsz hsrc hwb hcomp, ?_, rfl⟩
   simp only
   rw [parsed_unmanaged, allFields_unmanaged c r date _ _ hinv]
 
@@ -155,15 +170,76 @@ theorem close_announced (c : Conn) (r : Resp) (st : CState) (allow : Bool) (code
   refine ⟨_, Mhd.Reply.reply_parses c r st allow code0 q src date wb hinv hq hdate hsz hsrc hwb hcomp, ?_⟩
   exact close_in_fields c r date _ _ hinv ((closesAfter_iff c r q.code hup).1 hcl)
 
-/-
-  The converse — "a reply that carries `Connection: close` is followed by the daemon closing the
-  connection" — is NOT proved here.  It needs one more clause of the invariant:
-      r.fa.connClose = false → the stored Connection value has no `close` token (for the grammar's tokenizer),
-  whose preservation is a statement about the two token editors `MHD_str_remove_token_caseless_` /
-  `MHD_str_remove_tokens_caseless_` relative to the grammar's tokenizer.  With that clause as a hypothesis the
-  proof is the mirror image of `close_announced`; the correspondence run checks the equivalence on
-  every explored exchange and call sequence (oracle: close ⇔ `Connection: close`, flags_auto ⇔ list).
--/
+/-- the keep-alive state the reply leaves the connection with is the one `setup_reply_properties` decided -/
+theorem sendReply_ka (c : Conn) (r : Resp) (q : Queued) (src : BodySrc) (date : Option Bytes) (wb sp : Nat) :
+    (sendReply c r q src date wb sp).ka = (setupReplyProperties c r q.code).1 := by
+  unfold sendReply buildHeaderResponse
+  rcases hx : setupReplyProperties c r q.code with ⟨ka, props⟩
+  simp only
+  split
+  · rfl
+  · split
+    · rfl
+    · split <;> rfl
+
+/-- … if AND ONLY IF.  For every response object reachable by any legal sequence of add / delete header / footer
+    / option calls from any constructor, every request, every reply decision: the head of the complete reply has a
+    Connection field with a `close` token (found by the grammar's own tokenizer: split at commas, trim OWS, compare
+    case-insensitively) exactly when the connection is left in MHD_CONN_MUST_CLOSE — which, for everything but an
+    upgrade response, is exactly when the daemon closes the connection after the reply (`connection_reset` with
+    `reuse = false`).  Nothing about the string editors is assumed: `Mhd.Tok.editorSpecs` proves that the model
+    copies of `MHD_str_remove_token_caseless_` (output: a `", "`-list without any `close` element) and
+    `MHD_str_remove_tokens_caseless_` (output: the `", "`-list of a sub-list of the elements) keep the stored value
+    in the normal form in which `close` can only be the first element and only together with
+    MHD_RAF_HAS_CONNECTION_CLOSE (`Mhd.Tok.ConnTok`, preserved by every call: `Mhd.Tok.applyCall_connTok`). -/
+theorem close_announced_iff (r0 : Resp) (cs : List Call)
+    (h0 : (∃ size, r0 = Resp.create size) ∨ (∃ f, f.insanity = false ∧ r0 = Resp.createEmpty f) ∨ r0 = Resp.createUpgrade)
+    (hl : ∀ c ∈ cs, c.Legal)
+    (c : Conn) (st : CState) (allow : Bool) (code0 : Nat) (q : Queued) (src : BodySrc) (date : Option Bytes) (wb : Nat)
+    (hq : queueResponse c st false false allow code0 (runCalls r0 cs) = some q)
+    (hdate : ∀ d, date = some d → NoCRLF d) (hsz : (runCalls r0 cs).totalSize < 2 ^ 64)
+    (hsrc : SrcLegal (runCalls r0 cs) wb src) (hwb : 128 ≤ wb)
+    (hcomp : (sendReply c (runCalls r0 cs) q src date wb (startPosAfterQueue q (runCalls r0 cs) 0)).complete = true) :
+    ∃ p, parseReply (reqOf c) (sendReply c (runCalls r0 cs) q src date wb (startPosAfterQueue q (runCalls r0 cs) 0)).wire = some p ∧
+      (announcesClose p.fields = true ↔
+        (sendReply c (runCalls r0 cs) q src date wb (startPosAfterQueue q (runCalls r0 cs) 0)).ka = .mustClose) ∧
+      ((runCalls r0 cs).upgrade = false →
+        (announcesClose p.fields = true ↔
+          closesAfter c (sendReply c (runCalls r0 cs) q src date wb (startPosAfterQueue q (runCalls r0 cs) 0)).ka = true)) := by
+  have hinv : Inv (runCalls r0 cs) := calls_preserve_inv r0 cs h0 hl
+  have hct := Mhd.Tok.reachable_connTok r0 cs h0 hl
+  refine ⟨_, Mhd.Reply.reply_parses c _ st allow code0 q src date wb hinv hq hdate hsz hsrc hwb hcomp, ?_, ?_⟩
+  · rw [sendReply_ka]; exact Mhd.Tok.announces_iff_mustClose c _ date q.code hinv hct
+  · intro hup
+    rw [sendReply_ka, closesAfter_iff c _ q.code hup]
+    exact Mhd.Tok.announces_iff_mustClose c _ date q.code hinv hct
+
+/-- Non-vacuity, direction "announced ⇒ closes": the application adds `Connection: Foo, cLoSe`; the hypotheses
+    hold and the connection is left in MUST_CLOSE. -/
+example :
+    let r := runCalls (Resp.create 5) [.add sConnection [70, 111, 111, 44, 32, 99, 76, 111, 83, 101]]
+    let c : Conn := {}
+    ∃ q, queueResponse c .fullReqReceived false false false 200 r = some q ∧
+      SrcLegal r 4096 (.buffer [97, 98, 99, 100, 101]) ∧
+      (sendReply c r q (.buffer [97, 98, 99, 100, 101]) none 4096 (startPosAfterQueue q r 0)).complete = true ∧
+      (sendReply c r q (.buffer [97, 98, 99, 100, 101]) none 4096 (startPosAfterQueue q r 0)).ka = .mustClose := by
+  refine ⟨⟨200, false, false, false⟩, by decide, ⟨by decide, by decide⟩, by decide, by decide⟩
+
+/-- Non-vacuity, direction "not announced ⇒ stays open" on the edit sequence that needs the flag re-evaluation of
+    `del_response_header_connection`: `close` is added, a short token (`TE`, < 5 bytes) is added, `close` is
+    deleted again.  The stored value is `TE`, the close flag is cleared, the connection is kept alive. -/
+example :
+    let r := runCalls (Resp.create 5)
+      [.add sConnection sClose, .add sConnection [84, 69], .del sConnection sClose]
+    let c : Conn := {}
+    r.hdrs = [⟨.header, sConnection, [84, 69]⟩] ∧ r.fa.connClose = false ∧
+    ∃ q, queueResponse c .fullReqReceived false false false 200 r = some q ∧
+      SrcLegal r 4096 (.buffer [97, 98, 99, 100, 101]) ∧
+      (sendReply c r q (.buffer [97, 98, 99, 100, 101]) none 4096 (startPosAfterQueue q r 0)).complete = true ∧
+      (sendReply c r q (.buffer [97, 98, 99, 100, 101]) none 4096 (startPosAfterQueue q r 0)).ka = .useKeepalive ∧
+      closesAfter c (sendReply c r q (.buffer [97, 98, 99, 100, 101]) none 4096 (startPosAfterQueue q r 0)).ka = false := by
+  refine ⟨by decide, by decide, ⟨200, false, false, false⟩, by decide, ⟨by decide, by decide⟩, by decide, by decide, by decide⟩
+
 
 /-- `100 Continue` is sent only to an HTTP/1.1 client that asked for it while the body is still awaited. -/
 theorem continue_only_when_asked (ver : Ver) (remaining : Nat) (expect : Option Bytes)
@@ -191,5 +267,95 @@ example :
       SrcLegal r 4096 (.buffer [97, 98, 99, 100, 101]) ∧
       (sendReply c r q (.buffer [97, 98, 99, 100, 101]) none 4096 (startPosAfterQueue q r 0)).complete = true := by
   refine ⟨⟨200, false, false, false⟩, by decide, ⟨by decide, by decide⟩, by decide⟩
+
+/-- Error replies the daemon generates itself (`transmit_error_response_len`: 400 / 413 / 431 / 501 / 505 … and the 301
+    redirect with its unchecked `Location` entry) go through the same reply builder.  Whenever such a reply is
+    produced at all (otherwise the connection is closed without a byte): it is sent completely, is WellFramed, is
+    never chunked, carries exactly the static message as body (nothing for HEAD), announces `Connection: close`, and
+    the connection is left in MUST_CLOSE with `discard_request` set, i.e. the daemon closes after it — for every
+    connection state, request method / version, status code, message, date option and buffer sizes. -/
+theorem error_reply_framed_and_closes (c : Conn) (swe late shut : Bool) (code0 : Nat) (msg : Bytes)
+    (hdr : Option (Bytes × Bytes)) (date : Option Bytes) (wb1 wb2 : Nat) (out : ReplyOut)
+    (hh : ∀ n v, hdr = some (n, v) → ErrHdrOK n v) (hmsg : msg.length < sizeUnknown)
+    (hdate : ∀ d, date = some d → NoCRLF d) (hwb1 : 128 ≤ wb1) (hwb2 : 128 ≤ wb2)
+    (h : transmitErrorResponse c swe late shut code0 msg hdr date wb1 wb2 = .reply out) :
+    out.complete = true ∧ WellFramed (reqOf c) out.wire ∧
+    out.ka = .mustClose ∧ closesAfter { c with discardRequest := true } out.ka = true ∧
+    ∃ p, parseReply (reqOf c) out.wire = some p ∧ announcesClose p.fields = true ∧
+      p.body = (if NoBody c p.code then [] else msg) ∧
+      (∀ n, p.framing = Framing.length n → n = msg.length) ∧ p.framing ≠ Framing.chunked := by
+  obtain ⟨q, wb, hwbc, _, hq, rfl, hfit⟩ := transmitError_cases c swe late shut code0 msg hdr date wb1 wb2 out h
+  have hlen : msg.length ≠ sizeUnknown := by omega
+  have hwb : 128 ≤ wb := by rcases hwbc with rfl | rfl <;> assumption
+  obtain ⟨cs, hl, hr⟩ := errorResponse_reachable msg.length hdr hh
+  have h0 : (∃ size, Resp.create msg.length = Resp.create size) ∨
+      (∃ f, f.insanity = false ∧ Resp.create msg.length = Resp.createEmpty f) ∨ Resp.create msg.length = Resp.createUpgrade :=
+    Or.inl ⟨_, rfl⟩
+  have hinv : Inv (errorResponse msg.length hdr) := by rw [hr]; exact calls_preserve_inv _ cs h0 hl
+  have hct : Mhd.Tok.ConnTok (errorResponse msg.length hdr) := by rw [hr]; exact Mhd.Tok.reachable_connTok _ cs h0 hl
+  obtain ⟨hts, hup⟩ := errorResponse_props msg.length hdr
+  have hcomp := errorReply_complete _ msg hdr q date wb hlen hh hfit
+  have hsz : (errorResponse msg.length hdr).totalSize < 2 ^ 64 := by
+    rw [hts]; have : sizeUnknown < 2 ^ 64 := by decide
+    omega
+  have hsrc : SrcLegal (errorResponse msg.length hdr) wb (.buffer msg) := ⟨hts.symm, by rw [hts]; exact hlen⟩
+  have hk := setup_mustClose { c with discardRequest := true, keepalive := .mustClose } (errorResponse msg.length hdr) q.code rfl
+  have hq2 : queueResponse { c with discardRequest := true, keepalive := .mustClose } .fullReqReceived false false false
+      code0 (errorResponse msg.length hdr) = some q := hq
+  have hp := Mhd.Reply.reply_parses { c with discardRequest := true, keepalive := .mustClose } _ .fullReqReceived false
+    code0 q (.buffer msg) date wb hinv hq2 hdate hsz hsrc hwb hcomp
+  have hnc := errorResponse_notChunked { c with discardRequest := true, keepalive := .mustClose } msg.length hdr q.code hlen hh
+  have hp' : parseReply (reqOf c) (sendReply { c with discardRequest := true, keepalive := .mustClose }
+      (errorResponse msg.length hdr) q (.buffer msg) date wb (startPosAfterQueue q (errorResponse msg.length hdr) 0)).wire
+      = some _ := hp
+  refine ⟨hcomp, ?_, ?_, ?_, _, hp', ?_, rfl, ?_, ?_⟩
+  · unfold WellFramed; rw [hp']; rfl
+  · rw [sendReply_ka]; exact hk
+  · rw [sendReply_ka, hk]; rfl
+  · exact (Mhd.Tok.announces_iff_mustClose _ _ date q.code hinv hct).2 hk
+  · intro n hf
+    simp only [expectedFraming, hnc, Bool.false_eq_true, if_false, hts] at hf
+    split at hf
+    · cases hf
+    · first
+      | (simp only [Framing.length.injEq] at hf; exact hf.symm)
+      | (split at hf
+         · simp only [Framing.length.injEq] at hf; exact hf.symm
+         · cases hf)
+  · simp only [expectedFraming, hnc, Bool.false_eq_true, if_false]
+    split
+    · intro hf; cases hf
+    · split <;> (intro hf; cases hf)
+
+/-- Non-vacuity: the 400 reply to a malformed request line of an HTTP/1.1 keep-alive client, and the 301
+    redirect with the unchecked `Location` entry. -/
+example :
+    ∃ out, transmitErrorResponse {} false false false 400 [60, 104, 62] none none 4096 4096 = .reply out ∧
+      out.ka = .mustClose := ⟨_, rfl, by decide⟩
+example : ErrHdrOK [76, 111, 99, 97, 116, 105, 111, 110] [47, 97, 37, 50, 48, 98] :=
+  ⟨by decide, by decide, by decide, by decide, by decide, by decide, by decide, by decide, by decide⟩
+
+/-- `MHD_create_response_from_iovec`: for EVERY element array (zero-length elements at the beginning, in the middle,
+    at the end, only zero-length elements, one or many non-empty elements, elements sharing memory, any NULL base on
+    a zero-length element) in which each non-empty element points to `iov_len` readable bytes: if a response is
+    created, its size is the sum of the element lengths and the body bytes the send path reads from it — through
+    the single-buffer shortcut (`i_cp == 1`) or the compacted copy — are exactly the elements' bytes one after the
+    other.  (With `total_size` known and this body as `BodySrc.buffer`, `one_body_delimitation` carries it to
+    the wire.) -/
+theorem iovec_body_is_concatenation (l : List Mhd.Iov.IoVec) (cnt : Nat) (r : Mhd.Iov.IovResp) (hl : Mhd.Iov.Legal l)
+    (h : Mhd.Iov.createFromIovec (some l) cnt = some r) :
+    Mhd.Iov.iovBody r.data = Mhd.Iov.concat l ∧ r.totalSize = (Mhd.Iov.concat l).length :=
+  Mhd.Iov.body_is_concatenation l cnt r hl h
+
+/-- Non-vacuity on the layout that needs `last_valid_buffer`: a zero-length element (pointing at foreign memory),
+    a NULL zero-length element, then the only non-empty one, then another empty one — the shortcut is taken and
+    the body is the non-empty element. -/
+example :
+    Mhd.Iov.createFromIovec (some [⟨some [35, 35, 35], 0⟩, ⟨none, 0⟩, ⟨some [97, 98, 99], 3⟩, ⟨some [36], 0⟩]) 4
+      = some ⟨3, .single [97, 98, 99] 3⟩ := by decide
+/-- … and two non-empty elements sharing memory around an empty one go through the compacted copy. -/
+example :
+    (Mhd.Iov.createFromIovec (some [⟨some [97, 98, 99], 2⟩, ⟨none, 0⟩, ⟨some [97, 98, 99], 3⟩]) 3).map
+      (fun r => (r.totalSize, Mhd.Iov.iovBody r.data)) = some (5, [97, 98, 97, 98, 99]) := by decide
 
 end Mhd.C04
